@@ -35,6 +35,8 @@ Emit == pc = "done" =>
 GEN_Scores == 0..5
 GEN_Dims   == 2..6
 GEN_Bases  == 1..6
+\* thorough: one more score value
+GENT_Scores == 0..6
 \* tie witnesses: small integers for which float32 s*(r/t) lands BELOW the exact integer quotient
 \* (e.g. 11*(26/22) = 12.999999), i.e. the "lowU" branch of the exact-input model taken by the real code
 GENW_Scores == {7, 11, 22, 23}
